@@ -16,6 +16,8 @@ _BUILTIN_NAMES = {'float': float, 'int': int, 'bool': bool, 'str': str, 'list': 
 
 
 _MISSING = object()
+import operator as _operator
+_PURE_STDLIB = {'operator': _operator, 'math': math}
 
 
 def funcs(ctx, module=None, stubs=None):
@@ -69,6 +71,14 @@ def funcs(ctx, module=None, stubs=None):
             return exprs[nm]
         if nm in _BUILTIN_NAMES:
             return _BUILTIN_NAMES[nm]
+        # a name imported from a pure standard-library module (from operator import lt as _lt)
+        mods_ = ([ctx.prog.modules[module]] if module in ctx.prog.modules else []) + list(ctx.prog.modules.values())
+        for m in mods_:
+            for imp in getattr(m, 'imports', []):
+                if isinstance(imp, ast.ImportFrom) and imp.module in _PURE_STDLIB and imp.level == 0:
+                    for al in imp.names:
+                        if (al.asname or al.name) == nm and hasattr(_PURE_STDLIB[imp.module], al.name):
+                            return getattr(_PURE_STDLIB[imp.module], al.name)
         # a repository class referred to by name (static methods, class constants, construction)
         quals = [q for q, ci in ctx.prog.classes.items() if ci.name == nm]
         if module is not None and (module + '.' + nm) in quals:
